@@ -44,7 +44,7 @@ ASSUMPTIONS = [
     "the call site in place_objects (steps 4-8: slices replaced by the reduced ones, dropped objects skipped, unclipped extent attached, walls appended) is covered by bounded runs of the real place_objects only",
     "reduction of an explicit non-uniform RectilinearGrid (RectilinearGrid.reduce_symmetric) belongs to the grid properties (C37/C38) and is not covered here",
 ]
-MIN_OBLIGATIONS = {"quick": 1500, "thorough": 1500}
+MIN_OBLIGATIONS = {"quick": 25000, "thorough": 200000}
 LEVEL_TEXT = "Deductive proof over all volume extents, plane positions and object boxes (symbolic integers) for each of the 27 symmetry tuples of the reduction, dropping, clipping, unclipped-extent and wall contracts of the real functions"
 LEVEL_NOTE = "symmetry tuples enumerated; the place_objects call site is a bounded stand-in on enumerated small scenes"
 BOUNDED_RULE = "bounded part: real fdtdx.place_objects with config.symmetry on enumerated small volumes / object boxes, compared with the contract"
